@@ -495,4 +495,52 @@ def r14_8(ctx):
     return o
 
 
-RULES = [r14_1, r14_2, r14_3, r14_4, r14_5, r14_6, r14_7, r14_8]
+def r14_9(ctx):
+    """abstract run (W) of PlanarCurve.__and__ with the repository's own Intersection.filter_parameters: the Newton search
+    (stand-in) returns an iterate a rounding error away from a common end point of the two segments -- (1, 4.9e-19),
+    (0.9999999999999999, 1) ... -- next to interior crossings.  What comes out for the end point must be the exact
+    pair: the end_points flag of JordanCurve.intersection and `A & B` recognise end points by u, v in {0, 1} exactly"""
+    out = Outcome("R14.9", "PlanarCurve.__and__ reports a crossing at a common end point of two curved segments with the exact "
+                           "parameters 0 / 1, also when the search ends a rounding error beside them (the exact end-point "
+                           "pairs win the merge of near-equal candidates)", floor=4)
+    fn = ctx.fn("curve.PlanarCurve.__and__")
+    cases = [("common end point (1, 0), iterate (1, 4.9e-19)", [(1, 0)], [(1.0, 4.942884452184821e-19)], []),
+             ("common end point (1, 1), iterate (0.9999999999999999, 1.0)", [(1, 1)], [(0.9999999999999999, 1.0)], []),
+             ("common end point (0, 0), iterate (3e-17, 2e-17), and an interior crossing", [(0, 0)],
+              [(3e-17, 2e-17), (0.5, 0.25)], [(0.5, 0.25)]),
+             ("common end point (0, 1), iterates on both sides of it", [(0, 1)], [(1e-18, 1.0), (0.0, 0.9999999999999998)], [])]
+    for label, ends, iterates, interior in cases:
+        truth_pts = [tuple(map(float, e)) for e in ends] + list(interior)
+
+        def near(p):
+            return any(abs(float(p[0]) - t[0]) < 1e-6 and abs(float(p[1]) - t[1]) < 1e-6 for t in truth_pts)
+
+        def hook(rn, ev, call, name, recv, args, kwargs):
+            if name == "lines":
+                return ()
+            if name == "closed_linspace":
+                return tuple(Fr(i, args[0] - 1) for i in range(args[0]))
+            if name == "bezier_and_bezier":
+                return list(iterates)
+            if name == "filter_distance":
+                return tuple(q for q in args[2] if near(q))
+            return NotImplemented
+        a, b = SegT("a", 2), SegT("b", 2)
+        try:
+            got = Runner(ctx, {"curve.Intersection.filter_parameters"}, hook).call_fn(fn, [a, b])
+        except (Undecided, Raised) as ex:
+            out.undecided(fn.qname, f"{label}: {ex}", where=fn.where())
+            continue
+        got = list(got or ())
+        at_end = [q for q in got if any(abs(float(q[0]) - e[0]) < 1e-6 and abs(float(q[1]) - e[1]) < 1e-6 for e in ends)]
+        exact = [q for q in at_end if q[0] in (0, 1) and q[1] in (0, 1)]
+        if len(at_end) == 1 and len(exact) == 1 and len(got) == len(ends) + len(interior):
+            out.ok(fn.qname, f"{label} -> {got}", where=fn.where())
+        else:
+            out.bad(fn.qname, "a crossing at a common end point is not reported with the exact parameters 0 / 1",
+                    where=fn.where(), detail=f"{label}: returns {got} -- intersection(end_points=False) and `A & B` "
+                                             f"then keep the shared vertex as if it were a crossing")
+    return out
+
+
+RULES = [r14_1, r14_2, r14_3, r14_4, r14_5, r14_6, r14_7, r14_8, r14_9]
